@@ -21,5 +21,5 @@ one() {
   rm -rf "$w"
 }
 export -f one; export WORK PROPS
-ls -d "$ROOT"/C*-[ab] | xargs -P 12 -I{} bash -c 'one {}'
+ls -d "$ROOT"/C*-[a-z] | xargs -P 12 -I{} bash -c 'one {}'
 rm -rf "$WORK"
